@@ -586,6 +586,9 @@ def build(reg):
     specs = [EqSpec(), GeSpec(), SupportsSpec(), HashSpec(), GtFromGe(), LeFromGe(), LtFromGe(), AddEp(), Versions(), Resolve(), GroupGet()]
     for s in specs + [FromEpName(), HasNamespace()]:
         reg.add(s)
+    from . import plugmeta
+
+    specs = specs + plugmeta.add_plugmeta(reg)
     return {
         "verify": specs,
         "lemmas": [("total-order", lemma_total_order)],
